@@ -669,6 +669,11 @@ VTWINS = [
     ("schema.float(1e15).precision(1)", "1e15 + 0.125"), ("schema.float(-98765.4321).precision(6)", "-98765.432101"),
     ("schema.list(schema.float(1234.5).precision(6))", "[1234.5, 1234.500001]"),
     ("schema.float(1234.5).precision(6)", "1234.5"), ("schema.float(1234.5)", "1234.500001"), ("schema.float(1234.5)", "1234.5000000001"),
+    # many errors at once (every one is reported, rendered and counted)
+    ("schema.list(schema.int)", "['x'] * 25"), ("schema.list(schema.int.min(5))", "list(range(-30, 5))"),
+    ("schema.dict({%s})" % ", ".join(f"'k{i}': schema.int" for i in range(30)), "{}"),
+    ("schema.dict({%s})" % ", ".join(f"'k{i}': schema.str" for i in range(24)), "{'k%d' % i: i for i in range(24)}"),
+    ("schema.list([%s])" % ", ".join(["schema.none"] * 22), "[1] * 22"), ("schema.dict({})", "{i: i for i in range(40)}"),
     # dict subclasses whose __missing__ invents members: a missing key is still missing
     ("schema.dict({'a': schema.int, 'b': schema.int})", "collections.Counter({'a': 1})"),
     ("schema.dict({'a': schema.int, 'b': schema.int})", "collections.defaultdict(int, {'a': 1})"),
